@@ -10,6 +10,7 @@ PRELUDE = """    #[diplomat::opaque]
     pub struct St2<'p, 'q> { pub f: &'p Opq, pub g: &'q Opq }
     pub struct St2b<'p, 'q: 'p> { pub f: &'p Opq, pub g: &'q Opq }
     pub struct Nst2<'p, 'q> { pub a: St1<'p>, pub b: St2<'q, 'q> }
+    pub struct StV<'p, 'q> { pub f: &'p OpLt<'q>, pub s: DiplomatSlice<'q, u8> }
 """
 ALLFEATURES = {"name": "verif", "other": [], "supports": profiles.FEATURES}
 
@@ -28,7 +29,8 @@ def pty(p):
             "slice": lambda: amp(s[0]) + "[u8]", "opqlt": lambda: "%sOpLt<%s>" % (amp(s[0]), lt(s[1])),
             "st1": lambda: "St1<%s>" % lt(s[0]), "st2": lambda: "St2<%s, %s>" % (lt(s[0]), lt(s[1])),
             "st2b": lambda: "St2b<%s, %s>" % (lt(s[0]), lt(s[1])),
-            "nst2": lambda: "Nst2<%s, %s>" % (lt(s[0]), lt(s[1]))}[k]()
+            "nst2": lambda: "Nst2<%s, %s>" % (lt(s[0]), lt(s[1])),
+            "stv": lambda: "StV<%s, %s>" % (lt(s[0]), lt(s[1]))}[k]()
 
 
 def rty(r):
@@ -61,7 +63,7 @@ def render(n, sig, L):
 
 
 def module(items):
-    return "#[diplomat::bridge]\nmod ffi {\n" + PRELUDE + "\n".join(items) + "}\n"
+    return "#[diplomat::bridge]\nmod ffi {\n    use diplomat_runtime::DiplomatSlice;\n" + PRELUDE + "\n".join(items) + "}\n"
 
 
 def run_edges(wd, batches, tag):
@@ -172,6 +174,45 @@ def backend_emission(rep, cases, L, wd, k):
                                "param_kind": [p["kind"] for p in c["sig"]["params"]], "missing_self": "self" in miss},
                               {"sig": c["sig"], "rust": items[n], "expected_params": sorted(want), "emitted": sorted(got)})
     return nchecked
+
+
+STRUCT_OF_KIND = {"st1": "St1", "st2": "St2", "st2b": "St2b", "nst2": "Nst2", "stv": "StV"}
+
+
+def struct_getters(rep, wd, getters):
+    """JS and Dart turn a struct into a host object with one `_fieldsForLifetime<X>` getter per definition lifetime; the getter
+    must list every field whose type mentions that lifetime (FieldsFor in Lifetimes.tla).  Checked on the prelude structs."""
+    src = os.path.join(wd, "getters.rs")
+    use = "".join("        pub fn u_%s<'a, 'b: 'a>(x: %s) {}\n" % (k, "%s<%s>" % (n, "'a" if k == "st1" else "'a, 'b")) for k, n in STRUCT_OF_KIND.items())
+    open(src, "w").write(module(["    #[diplomat::opaque]\n    pub struct User(u8);\n    impl User {\n%s    }\n" % use]))
+    n = 0
+    for b in ("js", "dart"):
+        out = os.path.join(wd, "getters_" + b)
+        r = lib.run_tool(b, src, out)
+        if r["rc"] != 0:
+            rep.violation({"leg": "getters", "backend": b, "what": "backend failed on the prelude structs"}, {"stderr": r["stderr"][-1200:]})
+            continue
+        for k, name in STRUCT_OF_KIND.items():
+            path = os.path.join(out, name + (".mjs" if b == "js" else ".g.dart"))
+            t = open(path).read()
+            for l in ("p", "q"):
+                want = set(getters[k][l])
+                if b == "js":
+                    m = re.search(r'get _fieldsForLifetime%s\(\)\s*\{\s*return \[(.*?)\];' % l.upper(), t, re.S)
+                else:
+                    m = re.search(r'get _fieldsForLifetime%s => \[(.*?)\];' % l.upper(), t, re.S)
+                if not m:
+                    if want:
+                        rep.violation({"leg": "getters", "backend": b, "struct": name, "lifetime": l, "what": "no getter for a lifetime that fields mention"},
+                                      {"expected_fields": sorted(want), "file": path})
+                    continue
+                got = set(re.findall(r'(?:this\.#?|\.\.\.(?:this\.#?)?|^|[\s,\[])([a-z]\w*)(?:\._fieldsForLifetime\w+)?(?=[,\]\s]|$)', m.group(1)))
+                got = {x for x in got if x in {f for ll in getters[k].values() for f in ll} or x in want}
+                n += 1
+                if not want <= got:
+                    rep.violation({"leg": "getters", "backend": b, "struct": name, "lifetime": l, "what": "field missing from the lifetime's keep-alive list"},
+                                  {"expected_fields": sorted(want), "listed": sorted(got), "getter": m.group(0)[:300]})
+    return n
 
 
 def _names(tokens, sig):
@@ -285,4 +326,7 @@ def run(rep, tier):
                     rep.nontriv(c["sig"])
     k = backend_emission(rep, cases, L, wd, 60 if tier == "quick" else 400)
     rep.extra["backend_emission_checked"] = k
+    gt = lib.tlc("life", "MC_Lifetimes", "getters.cfg", workers=1, coverage=False)
+    lib.tlc_expect_ok(gt, "struct field/lifetime table")
+    rep.extra["struct_getters_checked"] = struct_getters(rep, wd, gt.printed["GETTERS"][0])
     rep.exhaustive = (tier == "thorough")
